@@ -56,7 +56,7 @@ class Sched:
         self.main = threading.Semaphore(0)
         self.events = []
         self.seq = 0
-        self.locks = {}           # lock file path -> owner pid
+        self.locks = {}           # inode of the lock file -> owner pid
         self.violations = []
         self.steps = 0
         self.max_steps = 20000
@@ -230,7 +230,7 @@ class Sched:
         self.judge(p, kind, outcome, error, cache, pool_path, before_cache, before_pool, cache_was_link, copied, op)
 
     def locks_of(self, pid):
-        return [lf for lf, owner in self.locks.items() if owner == pid]
+        return [inode for inode, owner in self.locks.items() if owner == pid]
 
     def judge(self, p, kind, outcome, error, cache, pool_path, before_cache, before_pool, cache_was_link, copied, op):
         injected = outcome == "InjectedError"
@@ -329,13 +329,19 @@ class FakeFcntl:
         if p.frozen:
             return  # a dead process unwinding: the kernel already dropped its locks
         s.yield_point("lockf", path=path)
+        # POSIX record locks belong to the inode the descriptor refers to, not to the path
+        try:
+            inode = os.fstat(fd.fileno()).st_ino
+        except (OSError, ValueError):
+            inode = ("closed", path)
+        pool_path = path[:-len(".lock")]
         if cmd & self.LOCK_UN:
-            if s.locks.get(path) == pid:
-                del s.locks[path]
-            p.in_cs.discard(path[:-len(".lock")])
+            if s.locks.get(inode) == pid:
+                del s.locks[inode]
+            p.in_cs.discard(pool_path)
             s.log("lock.release", path=s.rel(path))
             return
-        owner = s.locks.get(path)
+        owner = s.locks.get(inode)
         if owner is not None and owner != pid:
             if cmd & self.LOCK_NB:
                 s.log("lock.busy", path=s.rel(path), holder=owner, index=p.current[0] if p.current else None)
@@ -343,8 +349,12 @@ class FakeFcntl:
                 raise BlockingIOError(errno.EAGAIN, "Resource temporarily unavailable")
             s.violate("blocking-lock", "the pool lock was requested in blocking mode (no finite timeout possible)")
             raise BlockingIOError(errno.EAGAIN, "Resource temporarily unavailable")
-        s.locks[path] = pid
-        p.in_cs.add(path[:-len(".lock")])
+        s.locks[inode] = pid
+        others = [q.pid for q in s.procs.values() if q.pid != pid and not q.frozen and pool_path in q.in_cs]
+        if others:
+            s.violate("lock-not-exclusive", "two processes were granted the lock of the same pool file at the same time",
+                      path=s.rel(pool_path), others=others)
+        p.in_cs.add(pool_path)
         p.cs_yields = -1
         s.log("lock.acquire", path=s.rel(path))
 
@@ -479,10 +489,9 @@ def _check_owner(self, src, dst, what):
     for path in (src, dst):
         if path is None or not is_pool(self, path):
             continue
-        owner = self.locks.get(path + ".lock")
-        if owner != self.me():
+        if path not in self.procs[self.me()].in_cs:
             self.violate("unlocked-access", f"a pool file was accessed ({what}) without holding its lock",
-                         path=self.rel(path), holder=owner)
+                         path=self.rel(path))
 
 
 def _mark_touch(self, src, dst, pid):
